@@ -79,7 +79,7 @@ def work(tier, seed):
     for ch in common.chunks(mid, max(1, len(mid) // 24)):
         units.append({"kind": "fsdp_chunks", "shapes": ch, "seed": seed})
     for layers in REAL_MODELS:
-        units.append({"kind": "real_fsdp", "layers": layers, "Ws": [2, 3] if tier == "quick" else [1, 2, 3, 4, 5], "seed": seed})
+        units.append({"kind": "real_fsdp", "layers": layers, "Ws": [2, 3] if tier == "quick" else [2, 3, 4, 5], "seed": seed})
     units += hsdp_units(tier, seed)
     return units
 
